@@ -14,6 +14,7 @@ import (
 	"github.com/libsv/go-bt/v2"
 	"github.com/libsv/go-bt/v2/bscript"
 	"github.com/libsv/go-bt/v2/bscript/interpreter"
+	"github.com/libsv/go-bt/v2/bscript/interpreter/scriptflag"
 	"github.com/libsv/go-bt/v2/bscript/interpreter/errs"
 	"github.com/libsv/go-bt/v2/sighash"
 	"github.com/libsv/go-bt/v2/unlocker"
@@ -21,6 +22,7 @@ import (
 	"verif/internal/gen"
 	"verif/internal/mon"
 	"verif/internal/prng"
+	"verif/internal/refcodec"
 	"verif/internal/refsighash"
 )
 
@@ -279,10 +281,18 @@ func c04Mutants(s *gen.Shape, i int, r *prng.R) []c04Mut {
 // output recorded on that input. forkid selects WithForkID().
 func c04Verify(c *mon.Ctx, tx *bt.Tx, idx int, script []byte, sats uint64, forkid bool) (accepted bool, code string, ok bool) {
 	prev := &bt.Output{Satoshis: sats, LockingScript: bscript.NewFromBytes(append([]byte{}, script...))}
-	opts := []interpreter.ExecutionOptionFunc{interpreter.WithTx(tx, idx, prev), interpreter.WithAfterGenesis()}
+	// UTXO_AFTER_GENESIS (+ SIGHASH_FORKID), handed over through the convenience
+	// options and/or WithFlags in varying order; in a quarter of the cases
+	// together with strict-encoding flags a library-made signature satisfies
+	fl := uint32(scriptflag.UTXOAfterGenesis)
 	if forkid {
-		opts = append(opts, interpreter.WithForkID())
+		fl |= uint32(scriptflag.EnableSighashForkID)
 	}
+	salt := idx + len(script) + int(sats%7)
+	if salt%4 == 3 {
+		fl |= uint32(scriptflag.VerifyStrictEncoding | scriptflag.VerifyDERSignatures | scriptflag.VerifyLowS | scriptflag.VerifyNullFail)
+	}
+	opts := append([]interpreter.ExecutionOptionFunc{interpreter.WithTx(tx, idx, prev)}, flagOptions(fl, salt/4+salt)...)
 	var err error
 	if !c.Try("interpreter.Engine.Execute", func() { err = theEngine(c).Execute(opts...) }) {
 		return false, "", false
@@ -539,13 +549,23 @@ func c04Inscription(pkh []byte, r *prng.R) []byte {
 	s := gen.P2PKH(pkh)
 	s = append(s, 0x00, 0x63, 0x03, 'o', 'r', 'd', 0x51)
 	ctype := prng.Pick(r, []string{"text/plain;charset=utf-8", "image/png", "application/json", "a"})
-	s = append(s, gen.Push([]byte(ctype))...)
+	if r.Chance(1, 4) { // a legal but non-minimal push form inside the envelope (the script code must be hashed as it is)
+		e, _ := refcodec.PushWith(prng.Pick(r, []byte{0x4c, 0x4d, 0x4e}), []byte(ctype))
+		s = append(s, e...)
+	} else {
+		s = append(s, gen.Push([]byte(ctype))...)
+	}
 	s = append(s, 0x00)
 	n := prng.Pick(r, []int{1, 2, 13, 75, 76, 255, 256, 600})
 	if c04BigPayload > 0 {
 		n = c04BigPayload
 	}
-	s = append(s, gen.Push(r.Bytes(n))...)
+	if c04BigPayload == 0 && r.Chance(1, 5) {
+		e, _ := refcodec.PushWith(prng.Pick(r, []byte{0x4d, 0x4e}), r.Bytes(n))
+		s = append(s, e...)
+	} else {
+		s = append(s, gen.Push(r.Bytes(n))...)
+	}
 	s = append(s, 0x68)
 	// the enriched form Tx.Inscribe builds: OP_RETURN followed by pushes (tails of 0, 1, 2 and more bytes)
 	switch r.Intn(8) {
